@@ -278,11 +278,138 @@ def c07(pid, tier, seed):
                          shards=12)
 
 
+def maximal(seqs):
+    """drop sequences that are a proper prefix of another one (the monitor judges every prefix anyway)"""
+    ss = sorted(set(tuple(x) for x in seqs))
+    out = []
+    for k, x in enumerate(ss):
+        if k + 1 < len(ss) and ss[k + 1][:len(x)] == x:
+            continue
+        out.append(list(x))
+    return out
+
+
+def c05(pid, tier, seed):
+    q = tier == "quick"
+    gaps = {0, 1, 2000, 3999, 4000, 4001, 8000, 80000, 84000, 4000000}
+    states = trans = 0
+    fams, fails, samples, stats = [], [], [], {}
+    nh = nrec = 0
+
+    def gen(B, D, mode, name):
+        nonlocal states, trans
+        wd = vlib.workdir("%s_gen_%s" % (pid, name))
+        consts = dict(I=4000, B=B, D=D, Gaps=gaps)
+        if mode == "bfs":
+            cfg = vlib.cfg_text(consts, invariants=["TypeOK", "CapOK"], view="ViewImpl")
+            out, dist, g = vlib.run_tlc("Limiter", cfg, wd, workers=4)
+            seqs = [h["gaps"] for h in vlib.histories_from(out)]
+        else:
+            cfg = vlib.cfg_text(consts, invariants=["TypeOK", "CapOK"])
+            outs, dist, g = vlib.run_tlc_sims("Limiter", cfg, wd, mode[1], mode[2], seed)
+            seqs = [h["gaps"] for o in outs for h in vlib.histories_from(o)]
+        states += dist
+        trans += g
+        return maximal(seqs)
+
+    # design level: the interval form of the laws on the bucket algorithm, exhaustively for a small burst
+    wd = vlib.workdir("%s_design" % pid)
+    out, dist, g = vlib.run_tlc("Limiter", vlib.cfg_text(dict(I=4000, B=3, D=14, Gaps=gaps), invariants=["TypeOK", "CapOK", "WindowI", "FreshI"], view="View"), wd, workers=4)
+    states += dist
+    trans += g
+    design = {"model": "Limiter (I=4000, B=3, depth 14)", "distinct_states": dist, "invariants": ["WindowI", "FreshI", "CapOK"]}
+
+    def lift(seq, extra):
+        """B=3 behaviour -> analogue for a larger burst: every bucket-draining run of zero gaps gets `extra` more requests"""
+        out, k = [], 0
+        for g in list(seq) + [None]:
+            if g == 0:
+                k += 1
+                continue
+            if k:
+                out += [0] * (k + (extra if k >= 2 else 0))
+                k = 0
+            if g is not None:
+                out.append(g)
+        return out
+    # every sequence of 5 (6) gaps around the interval, without state-based pruning, so that timing distinctions the
+    # reference algorithm does not make (but a changed one might) are kept
+    wd2 = vlib.workdir("%s_allseq" % pid)
+    out2, d2, g2 = vlib.run_tlc("Limiter", vlib.cfg_text(dict(I=4000, B=3, D=5 if q else 6, Gaps={0, 1, 3999, 4000, 4001, 8000}), invariants=["TypeOK", "WindowI", "FreshI"]), wd2, workers=4)
+    states += d2
+    trans += g2
+    small = maximal([h["gaps"] for h in vlib.histories_from(out)] + [h["gaps"] for h in vlib.histories_from(out2)])
+    lifted20 = [lift(s, 17) for s in small]
+    lifted10 = [lift(s, 7) for s in small]
+
+    cover20 = gen(20, 45, "bfs", "cover20")
+    cover10 = gen(10, 30, "bfs", "cover10")
+    deep20 = gen(20, 120 if q else 700, ("sim", 24 if q else 200, (120 if q else 700) + 2), "deep20")
+    steady = [[2000] * (700 if q else 2000), [4000] * 300, [1] * 400]
+
+    def hist(seq, R, kind, lit):
+        if kind == "pos":
+            sub = 250                                    # 1 ms / 4000
+        elif lit:
+            sub = 1000000000 // (R * 4000)               # clustered around the literal interval 1/R
+        else:
+            sub = (1000 // R) * 250                      # clustered around the interval the code uses
+        ops = []
+        cfg = {"w": 20, "h": 5, "base": 0, "x": {"R": 1000 if kind == "pos" else R, "B": 10 if kind == "pos" else 20}}
+        new = {"op": "new", "b": 1, "len": 1000000, "tpl": "P", "fin": "AndLeave", "fm": [], "m0": [], "p0": [], "pos0": 0, "tabw": 8, "hz": R, "dt": 0}
+        if kind == "single":
+            ops.append(dict(new, target="spy_hz"))
+        elif kind == "pos":
+            ops.append(dict(new, target="spy"))
+        else:
+            cfg["mp"] = {"target": "spy_hz", "hz": R, "align": "top"}
+            ops.append(dict(new, op="add", target="spy"))
+        for g in seq:
+            ns = g * sub
+            ops.append({"op": "inc" if kind == "pos" else "tick", "b": 1, "n": 1, "dts": ns // 1000000000, "dt": (ns % 1000000000) // 1000, "dtn": ns % 1000})
+        return {"cfg": cfg, "ops": ops}
+
+    rates = [1, 3, 20, 60, 250, 255] if q else list(range(1, 256))
+    plan = []
+    for R in rates:
+        sel = cover20 if (q and R in (20, 255)) or not q else cover20[::7]
+        plan.append(("single_R%d" % R, [hist(s, R, "single", False) for s in sel + (lifted20 if R in (20, 250) or not q else lifted20[::4])] + [hist(s, R, "single", True) for s in sel[::5]]
+                     + [hist(s, R, "single", False) for s in (deep20 + steady if (R in (20, 255) or not q) else steady[:1])]))
+    plan.append(("multi_R20", [hist(s, 20, "multi", False) for s in cover20[::3] + deep20[:8] + steady[:1]]))
+    plan.append(("posgate", [hist(s, 1, "pos", False) for s in cover10 + lifted10 + steady]))
+    for name, hs in plan:
+        bad, st, total = vlib.replay_and_judge("%s_%s" % (pid, name), hs, "api", "Trace_Throttle", shards=8)
+        nh += len(hs)
+        nrec += total
+        for k, v in st.items():
+            stats[k] = stats.get(k, 0) + v
+        fams.append({"family": name, "histories": len(hs), "records": total, "verdicts": len(bad)})
+        if len(samples) < 2:
+            samples.append({"family": name, "cfg": hs[0]["cfg"], "ops": hs[0]["ops"][:12]})
+        byh = {h["h"]: h for h in hs}
+        for v in bad:
+            h = byh[v["h"]]
+            fails.append(dict(cls="%s/%s" % (v["rule"], name.split("_")[0]), rule=v["rule"], n=v["i"], kf=kf.classify_c05(h, v),
+                              what="rule=%s family=%s step=%d" % (v["rule"], name, v["i"]),
+                              replay={"driver": "api", "monitor": "Trace_Throttle", "rule": v["rule"], "history": {"h": 1, "cfg": h["cfg"], "ops": h["ops"][:v["i"]]}}))
+    if stats.get("painted", 0) == 0 or stats.get("denied", 0) == 0 or stats.get("fresh", 0) == 0:
+        raise vlib.ToolError("vacuous run: painted/denied/fresh clauses not all exercised: %s" % stats)
+    fails.sort(key=lambda x: x["n"])
+    coverage = dict(states=states, transitions=trans, traces_validated_against_impl=nh, records_validated=nrec, samples=samples, clause_counts=stats,
+                    families=fams, design_level=design, rates=rates,
+                    rule="request-time sequences = transition cover of the Limiter model (one shortest gap sequence per reachable bucket state and decision) + random walks + steady "
+                         "saturating runs, scaled to each refresh rate around the code's and the literal interval; every request judged by Trace_Throttle", exhaustive=False)
+    return dict(level="model_checking", coverage=coverage, failures=fails,
+                assumptions=["virtual monotonic clock by symbol interposition (single-threaded driver)", "painted = a flush reached the spy terminal",
+                             "gaps are multiples of 1/4000 of the interval (so exact multiples, one sub-step before and after), up to 1000 intervals"])
+
+
 PROPS = {
     "C01": c01,
     "C02": c02,
     "C03": c03,
     "C04": c04,
+    "C05": c05,
     "C06": c06,
     "C07": c07,
     "C18": c18,
